@@ -97,6 +97,8 @@ def encode(data, rng=None, mode='greedy'):
     if mode == 'literal':
         _emit(out, data, 0, 0)
         return bytes(out)
+    if mode == 'barely':
+        return _encode_barely(data, rng)
     while i < n - 12:
         key = data[i:i + 4]
         cand = list(table.get(key, ()))
@@ -124,6 +126,48 @@ def encode(data, rng=None, mode='greedy'):
             ml += 1
         if mode == 'random' and rng is not None and ml > 4 and rng.random() < 0.5:
             ml = rng.randrange(4, ml + 1)
+        _emit(out, data[anchor:i], i - use, ml)
+        i += ml
+        anchor = i
+    _emit(out, data[anchor:], 0, 0)
+    return bytes(out)
+
+
+def _final_run_size(ll):
+    return 1 + (0 if ll < 15 else 1 + (ll - 15) // 255) + ll
+
+
+def _encode_barely(data, rng):
+    """A valid block that is only 1..8 bytes shorter than the data (the contract's boundary: 'shorter than the data'): greedy matches
+    until the block, closed with one final literal run, would shrink; the last match is shortened to land d bytes below len(data)."""
+    n = len(data)
+    d = (rng.choice([1, 1, 2, 3, 4, 7, 8]) if rng is not None else 1)
+    out = bytearray()
+    i = anchor = 0
+    table = {}
+    while i < n - 12:
+        key = data[i:i + 4]
+        cs = [c for c in table.get(key, ()) if i - c <= 65535]
+        table.setdefault(key, []).append(i)
+        if not cs:
+            i += 1
+            continue
+        use = cs[-1]
+        ml = 4
+        while i + ml < n - 5 and data[use + ml] == data[i + ml]:
+            ml += 1
+        best = None
+        for m in range(ml, 3, -1):
+            t = bytearray(out)
+            _emit(t, data[anchor:i], i - use, m)
+            total = len(t) + _final_run_size(n - (i + m))
+            if total <= n - 1:
+                if best is None or abs((n - total) - d) < abs((n - best[1]) - d):
+                    best = (m, total)
+        if best is not None and n - best[1] <= 8:
+            _emit(out, data[anchor:i], i - use, best[0])
+            anchor = i + best[0]
+            break
         _emit(out, data[anchor:i], i - use, ml)
         i += ml
         anchor = i
